@@ -10,10 +10,10 @@ use zerv::vcs::git_utils::GitUtils;
 use zerv::version::{SemVer, VersionObject};
 
 const CORES: [&str; 8] = ["0.0.0", "0.0.1", "0.1.0", "1.0.0", "1.0.2", "1.10.0", "2.0.0", "10.2.1"];
-const IDS: [&str; 6] = ["0", "1", "10", "a", "B", "-"];
+const IDS: [&str; 7] = ["0", "1", "10", "a", "B", "-", "a-"];
 const BUILDS: [&str; 4] = ["", "+b", "+1", "+z.9"];
 
-/// all identifier lists of length <= 3 over IDS, shortest first (259 lists)
+/// all identifier lists of length <= 3 over IDS, shortest first (400 lists)
 fn pre_lists() -> &'static Vec<String> {
     static L: OnceLock<Vec<String>> = OnceLock::new();
     L.get_or_init(|| {
@@ -131,6 +131,24 @@ fn related_pair() -> BoxedStrategy<(String, String)> {
             b.push_str(build);
             if swap { (b, a) } else { (a, b) }
         }),
+        // b = a with one identifier in the middle lengthened (the identifiers after it stay), so
+        // that one identifier is a proper prefix of its counterpart and more identifiers follow
+        2 => (big_version(), any::<prop::sample::Index>(), gens::pick(&["-", "-2", "-a", "0", "a", "--", "-0"]), any::<bool>()).prop_map(|(a, at, suffix, swap)| {
+            let (body, build) = match a.split_once('+') { Some((x, y)) => (x.to_string(), format!("+{y}")), None => (a.clone(), String::new()) };
+            let b = match body.split_once('-') {
+                Some((core, pre)) => {
+                    let mut ids: Vec<String> = pre.split('.').map(String::from).collect();
+                    let i = at.index(ids.len());
+                    // a digit appended to a long number would leave the u64 range zerv documents
+                    let numeric_overflow = ids[i].len() >= 19 && ids[i].bytes().all(|b| b.is_ascii_digit()) && suffix.bytes().all(|b| b.is_ascii_digit());
+                    ids[i].push_str(if numeric_overflow { "-" } else { suffix });
+                    format!("{core}-{}{build}", ids.join("."))
+                }
+                None => format!("{body}-{}{build}", suffix.trim_start_matches('0')),
+            };
+            let b = if osem::parse(&b).is_some() { b } else { a.clone() };
+            if swap { (b, a) } else { (a, b) }
+        }),
     ]
     .boxed()
 }
@@ -138,7 +156,7 @@ fn related_pair() -> BoxedStrategy<(String, String)> {
 pub fn property() -> Property {
     let pairs = EnumSub::<(String, String)>::new(
         "enum-pairs",
-        "all ordered pairs of the 2072-version universe: 8 cores x every pre-release list of length <=3 over {0,1,10,a,B,-}; build metadata attached by index",
+        "all ordered pairs of the 3200-version universe: 8 cores x every pre-release list of length <=3 over {0,1,10,a,B,-,a-}; build metadata attached by index",
         |_tier, shard, n, visit| {
             let u = universe();
             for (i, a) in u.iter().enumerate() {
@@ -157,10 +175,10 @@ pub fn property() -> Property {
     );
     let triples_enum = EnumSub::<(String, String, String)>::new(
         "enum-triples",
-        "transitivity on pre-release triples of 1.0.0: quick = every triple over the 43 lists of length <=2 (79 507); thorough = all 259^3 = 17 373 979 triples",
+        "transitivity on pre-release triples of 1.0.0: quick = every triple over the 57 lists of length <=2 (185 193); thorough = all 400^3 = 64 000 000 triples",
         |tier, shard, n, visit| {
             let l = pre_lists();
-            let m = tier.pick(43, 259);
+            let m = tier.pick(57, 400);
             for i in 0..m {
                 if i % n != shard {
                     continue;
@@ -185,7 +203,7 @@ pub fn property() -> Property {
             prop_oneof![
                 1 => (big_version(), big_version(), big_version()),
                 2 => (related_pair(), big_version(), 0usize..3).prop_map(|((a, b), c, r)| match r { 0 => (a, b, c), 1 => (a, c, b), _ => (c, a, b) }),
-                2 => (0..2072usize, 0..2072usize, 0..2072usize).prop_map(|(i, j, k)| { let u = universe(); (u[i].clone(), u[j].clone(), u[k].clone()) }),
+                2 => (0..3200usize, 0..3200usize, 0..3200usize).prop_map(|(i, j, k)| { let u = universe(); (u[i].clone(), u[j].clone(), u[k].clone()) }),
             ]
             .boxed()
         },
@@ -199,7 +217,7 @@ pub fn property() -> Property {
         |_| {
             proptest::collection::vec(
                 prop_oneof![
-                    3 => (0..2072usize, any::<bool>()).prop_map(|(i, v)| format!("{}{}", if v { "v" } else { "" }, universe()[i])),
+                    3 => (0..3200usize, any::<bool>()).prop_map(|(i, v)| format!("{}{}", if v { "v" } else { "" }, universe()[i])),
                     1 => big_version(),
                 ],
                 1..8,
@@ -228,7 +246,7 @@ pub fn property() -> Property {
     .floor(0.5);
     Property {
         id: "C10",
-        rule: "cases = ordered pairs / triples of SemVer strings and tag lists. Exhaustive: all 2072^2 ordered pairs of a small universe and pre-release triples; random: large numbers (to u64::MAX), identifier lists up to 8, pairs sharing a prefix. Oracle: independent SemVer 2.0.0 §11 comparator on digit strings; laws (antisymmetry, transitivity, == iff Equal) checked without the oracle. Non-trivial = the strings of the pair/triple differ (pairs) or are pairwise different (triples), tag lists with >=2 tags; distinct = distinct tuples.",
+        rule: "cases = ordered pairs / triples of SemVer strings and tag lists. Exhaustive: all 3200^2 ordered pairs of a small universe and pre-release triples; random: large numbers (to u64::MAX), identifier lists up to 8, pairs sharing a prefix. Oracle: independent SemVer 2.0.0 §11 comparator on digit strings; laws (antisymmetry, transitivity, == iff Equal) checked without the oracle. Non-trivial = the strings of the pair/triple differ (pairs) or are pairwise different (triples), tag lists with >=2 tags; distinct = distinct tuples.",
         assumptions: vec!["all generated versions have numbers <= u64::MAX (the parser's documented range)"],
         subs: vec![pairs.boxed(), triples_enum.boxed(), rand_pairs.boxed(), rand_triples.boxed(), max_tag.boxed()],
         known_repro: vec![],
